@@ -527,6 +527,30 @@ pub fn run_op(op: &str, a: &[Tok]) -> String {
                 None => "none".into(),
             }
         }
+        "sk_new" => {
+            let (k, d) = with_seeds(&a[0..1], || SecretKey::<C>::new());
+            format!("{}:draws={}", hex::encode(bsc_be(&k.0)), d)
+        }
+        "challenge_new" => {
+            let (k, d) = with_seeds(&a[0..1], || ProofCommitmentChallenge::<C>::new());
+            format!("{}:draws={}", hex::encode(bsc_be(&k.0)), d)
+        }
+        "sk_split_tap" => {
+            let sk = SecretKey::<C>(tok_scalar(&a[0]));
+            let (r, d) = with_seeds(&a[3..4], || sk.split(a[1].num() as usize, a[2].num() as usize));
+            match r {
+                Ok(v) => {
+                    let mut s = String::from("ok:[");
+                    for sh in &v {
+                        s.push(' ');
+                        s.push_str(&fmt_share(&Vec::<u8>::from(sh)));
+                    }
+                    s.push_str(&format!(" ]:draws={}", d));
+                    s
+                }
+                Err(e) => format!("err:{}:draws={}", err_kind(&e), d),
+            }
+        }
         "compute_y" => hex::encode(bsc_be(&<C as BlsSignatureProof>::compute_y(tok_sig(&a[0]), a[1].num() as u64))),
         _ => format!("unknown-op:{op}"),
     }
